@@ -19,3 +19,6 @@ Definition zmin_ne (l : list Z) (d : Z) : Z := fold_left Z.min l d.
 Definition tgt (a b : time) : bool := negb (tlt a b) && negb (teq a b).     (* total_ordering: a > b  =  not (a < b) and a != b *)
 Definition tge (a b : time) : bool := negb (tlt a b).                       (* total_ordering: a >= b  =  not (a < b) *)
 Definition zero_interval (n : nat) : interval := mkI n n (repeat 0 n).      (* TieredInterval of n zeros: cutoff and pre_length default to n *)
+(* what a simulator's step() returned, as far as scheduler.step looks at it; and what scheduler.step decides *)
+Inductive reply := RNone | RInt (v : Z) | ROther.
+Inductive step_decision := StepErrType | StepErrNotLater | StepErrMissing | StepOk (self_step : option Z).
